@@ -56,7 +56,7 @@ def thresholds(sy, dt):
     return (sy * THR_INC / dt_h, THR_INC / dt_h)   # (storm, jump) mm/h
 
 
-def build(word, shape, sy, dt, a0, et=None):
+def build(word, shape, sy, dt, a0, et=None, eps_inc=EPS_INC):
     """Returns dict(rain, level, truth pieces) or None if the word leaves
     the lattice"""
     lev = lattice(shape)
@@ -81,7 +81,7 @@ def build(word, shape, sy, dt, a0, et=None):
             if a - up < 0:
                 return None
             total = lev[a - up] - lev[a]
-            inc = (total - EPS_INC) / k
+            inc = (total - eps_inc) / k
             if not inc > 2 * THR_INC:
                 return None
             z0 = level[-1]
@@ -89,7 +89,7 @@ def build(word, shape, sy, dt, a0, et=None):
                 rain.append(sy * inc / dt_h)
                 level.append(z0 + inc * (i + 1))
             storms.append((len(rain) - k, k, z0, level[-1]))
-            rain.append(sy * EPS_INC / dt_h)
+            rain.append(sy * eps_inc / dt_h)
             level.append(lev[a - up])
             a -= up
     n = len(rain)
